@@ -241,7 +241,13 @@ func (env *Env) build(st *Step) error {
 	}
 	switch st.Op {
 	case "StackCall":
-		r := p4.F4(st.S[0], st.N)
+		var r p1.Result
+		if len(st.A) > 0 && len(st.A[0]) == 1 && st.A[0][0] == "deep" {
+			// the same call path below forty more frames (a stack deeper than any capture buffer)
+			r = p4.Deep(40, st.S[0], st.N)
+		} else {
+			r = p4.F4(st.S[0], st.N)
+		}
 		env.LastStack = &r
 		if r.Err != nil {
 			return r.Err
@@ -350,6 +356,10 @@ func (env *Env) build(st *Step) error {
 		return errors.WithIssueLink(e, errors.IssueLink{IssueURL: at(st.A, 0), Detail: at(st.A, 1)})
 	case "WithContextTags":
 		ctx := context.Background()
+		if len(st.A) == 1 && len(st.A[0]) == 1 && st.A[0][0] == "EMPTYBUF" {
+			// a tag buffer that exists but holds no tag
+			return errors.WithContextTags(e, logtags.WithTags(ctx, &logtags.Buffer{}))
+		}
 		for i := 0; i+1 < len(st.A); i += 2 {
 			v := st.A[i+1]
 			var val interface{}
@@ -460,6 +470,9 @@ func (env *Env) build(st *Step) error {
 		}
 		if len(st.A) > 0 && len(st.A[0]) == 1 && st.A[0][0] == "REG" {
 			return &utypes.URegMulti{Msg: s, Errs: errs}
+		}
+		if len(st.A) > 0 && len(st.A[0]) == 1 && st.A[0][0] == "CAUSE" {
+			return &utypes.UMultiCause{Msg: s, Errs: errs}
 		}
 		if len(st.A) > 0 {
 			return &utypes.UMultiIs{Msg: s, Tag: at(st.A, 0), Errs: errs}
